@@ -72,6 +72,65 @@ impl Net {
         }
     }
 
+    /// B sends a request over the request-response protocol (inbound substream at A, negotiated under
+    /// A's main or fallback name depending on which name B speaks); A receives it and holds it
+    async fn rr_open(&self, s: &str, rids: &mut HashMap<u64, litep2p::types::RequestId>, id: u64) {
+        use futures::StreamExt;
+        use litep2p::protocol::request_response::{DialOptions, RequestResponseEvent};
+        let (Some(ha), Some(hb)) = (&self.a.rr, &self.b.rr) else { return };
+        let tb = before(&self.log);
+        if let Err(e) = hb.lock().await.send_request(self.a.peer, vec![id as u8], DialOptions::Reject).await {
+            self.log.push(json!({"e": "open_refused", "s": s, "id": id, "why": format!("{e:?}")}));
+            return;
+        }
+        self.log.push(json!({"e": "open_begin", "s": s, "t": tb, "rem": true, "id": id, "rr": true}));
+        let got = tokio::time::timeout(Duration::from_secs(5), async {
+            let mut h = ha.lock().await;
+            loop {
+                match h.next().await {
+                    Some(RequestResponseEvent::RequestReceived { request_id, fallback, .. }) => return Some((request_id, fallback.is_some())),
+                    Some(_) => continue,
+                    None => return None,
+                }
+            }
+        })
+        .await;
+        match got {
+            Ok(Some((rid, fb))) => {
+                self.log.push(json!({"e": "open_ok", "s": s, "t": after(&self.log), "tb": tb, "rem": true, "id": id, "rr": true, "negotiated_fallback": fb}));
+                rids.insert(id, rid);
+            }
+            _ => {
+                self.log.push(json!({"e": "open_fail", "s": s, "t": after(&self.log), "rem": true, "id": id, "why": "request not received"}));
+            }
+        }
+    }
+
+    /// A answers the request it holds (the inbound substream ends with the response); B's outcome is recorded
+    async fn rr_drop(&self, s: &str, rids: &mut HashMap<u64, litep2p::types::RequestId>, id: u64) {
+        use futures::StreamExt;
+        use litep2p::protocol::request_response::RequestResponseEvent;
+        let (Some(ha), Some(hb)) = (&self.a.rr, &self.b.rr) else { return };
+        let Some(rid) = rids.remove(&id) else { return };
+        self.log.push(json!({"e": "drop_begin", "s": s, "t": before(&self.log), "id": id}));
+        ha.lock().await.send_response(rid, vec![1, 2, 3]);
+        let outcome = tokio::time::timeout(Duration::from_secs(3), async {
+            let mut h = hb.lock().await;
+            loop {
+                match h.next().await {
+                    Some(RequestResponseEvent::ResponseReceived { .. }) => return "response".to_string(),
+                    Some(RequestResponseEvent::RequestFailed { error, .. }) => return format!("failed: {error:?}"),
+                    Some(_) => continue,
+                    None => return "handle closed".to_string(),
+                }
+            }
+        })
+        .await
+        .unwrap_or_else(|_| "no outcome".to_string());
+        self.log.push(json!({"e": "drop_done", "s": s, "t": after(&self.log), "id": id}));
+        self.log.push(json!({"e": "rr_outcome", "id": id, "outcome": outcome}));
+    }
+
     async fn drop_sub(&self, s: &str, ids: &mut HashMap<u64, (bool, usize)>, id: u64) {
         let Some((from_a, sid)) = ids.remove(&id) else { return };
         let ends_before = self.log.count_from(0, |v| is(v, "sub_in_end") && v["n"] == "A");
@@ -106,6 +165,14 @@ async fn run_net(sc: &Value) -> (Vec<Value>, f64, Option<String>) {
         ca.ping = Some(Duration::from_millis(p));
         cb.ping = Some(Duration::from_millis(p));
     }
+    // request-response networks: A speaks /verif/x/2 with fallback /verif/x/1; B speaks only the old name
+    // (the inbound substream at A is negotiated under the fallback name) or the new one
+    let rr_kind = sc["kind"] == "rr";
+    if rr_kind {
+        ca.rr = Some(("/verif/x/2".into(), vec!["/verif/x/1".into()]));
+        cb.rr = Some((if sc["fallback"].as_bool().unwrap_or(true) { "/verif/x/1" } else { "/verif/x/2" }.to_string(), vec![]));
+    }
+    let mut rids: HashMap<u64, litep2p::types::RequestId> = HashMap::new();
     if sc["identify"].as_bool().unwrap_or(false) {
         ca.identify = true;
         cb.identify = true;
@@ -186,6 +253,8 @@ async fn run_net(sc: &Value) -> (Vec<Value>, f64, Option<String>) {
             }
             let id = act["id"].as_u64().unwrap_or(0);
             match act["a"].as_str().unwrap_or("") {
+                "ropen" if rr_kind => net.rr_open(&prim, &mut rids, id).await,
+                "drop" if rr_kind => net.rr_drop(&prim, &mut rids, id).await,
                 "open" => net.open(&prim, true, "q1", true, &mut ids, id).await,
                 "ropen" if !double => net.open(&prim, false, "q1", true, &mut ids, id).await,
                 // a substream that fails to negotiate: the remote does not speak the protocol
@@ -196,7 +265,7 @@ async fn run_net(sc: &Value) -> (Vec<Value>, f64, Option<String>) {
             }
         }
         // ---- wait for the end: every stream gone, or the Eventually deadline has clearly passed
-        let hold_forever = !ids.is_empty();
+        let hold_forever = !ids.is_empty() || !rids.is_empty();
         let wait_ms = if hold_forever { sc["hold_watch_ms"].as_u64().unwrap_or(3 * t_ms) } else { t_ms + slack + 400 };
         let t_end = log.now_ms() + wait_ms as f64;
         let gone = |net: &Net| match (&net.ab, &net.ba) {
